@@ -15,8 +15,8 @@ ACCESS_PRE = [
     (r'subscription_callback::template on_subscription< uuid >\(', 'on_subscription(', 1),
     (r'\*static_cast< Server\* >\( args\.server \)', 'args.server', 1),
     (r'static_cast< Server\* >\( args\.server \)->notification_subscription_changed\( args\.client_config \)', 'notification_subscription_changed( args.server, &args.client_config )', 1),
-    (r'args\.client_config\.flags\( cccd_position \)', 'flags_get( &args.client_config, cccd_position )', 4),
-    (r'args\.client_config\.flags\( cccd_position, ', 'flags_set( &args.client_config, cccd_position, ', 1),
+    (r'args\.client_config\.flags\( cccd_position \)', 'flags_get( &args.client_config, cccd_position )', '+'),
+    (r'args\.client_config\.flags\( cccd_position, ', 'flags_set( &args.client_config, cccd_position, ', '+'),
 ]
 ACCESS_RULES = ACC_RULES + [
     (r'const size_t flags_size = (\d+);', r'enum { flags_size = \1 };', 1),
